@@ -351,3 +351,59 @@ class Oracle:
 
 def rel_close(a, b, tol=Fraction(1, 10 ** 9)):
     return abs(a - b) <= tol * max(abs(b), Fraction(1, 10 ** 30)) or abs(a - b) <= Fraction(1, 10 ** 30)
+
+
+# ------------------------------------------------------------------ rendering for Coq (BigQ evaluation)
+COQ_HEADER = """From Bignums Require Import BigQ.
+From Coq Require Import QArith.
+From mathcomp Require Import ssreflect ssrfun ssrbool eqtype ssrnat div seq.
+From WH.Model Require Import GenotypeHMM GenotypeCall.
+Set Implicit Arguments.
+Unset Strict Implicit.
+Open Scope nat_scope.
+"""
+
+
+def qlit(fr):
+    fr = Fraction(fr)
+    if fr.numerator < 0:
+        return f"(BigQ.of_Q (({fr.numerator})%Z # {fr.denominator}%positive))"
+    return f"(BigQ.of_Q ({fr.numerator}%Z # {fr.denominator}%positive))"
+
+
+def qraw(fr):
+    fr = Fraction(fr)
+    if fr.numerator < 0:
+        return f"(({fr.numerator})%Z # {fr.denominator}%positive)"
+    return f"({fr.numerator}%Z # {fr.denominator}%positive)"
+
+
+def nat_list(xs):
+    return "[:: " + "; ".join(str(x) for x in xs) + "]" if xs else "[::]"
+
+
+def coq_list(xs):
+    return "[:: " + "; ".join(xs) + "]" if xs else "[::]"
+
+
+def inst_term(inst):
+    """the instance as a term of type `inst bigQ` (GenotypeHMM.Inst)."""
+    cols = active_columns(inst)
+    cterms = []
+    for c, col in enumerate(cols):
+        ents = []
+        for rid, smp, al, q in col:
+            a = "None" if al is None else ("(Some false)" if al == 0 else "(Some true)")
+            p = qlit(phred_prob(q)) if al is not None else qlit(phred_prob(0))
+            ents.append(f"Entry {rid} {smp} {a} {p}")
+        pri = coq_list([coq_list([qlit(Fraction(x)) for x in inst["priors"][ind][c]]) for ind in range(inst["nind"])])
+        cterms.append(f"Column {coq_list(ents)} {pri} {qlit(recomb_prob(inst['recomb'][c]))}")
+    trios = coq_list([f"({f}, {m}, {ch})" for f, m, ch in inst["trios"]])
+    return f"(Inst (Ped {inst['nind']} {trios}) {coq_list(cterms)})"
+
+
+def impl_term(res):
+    """implementation output [individual][column][genotype] (hex doubles) -> [column][individual][genotype] of Q"""
+    nind, ncols = len(res), len(res[0]) if res else 0
+    return coq_list([coq_list([coq_list([qraw(hex_to_fraction(h)) for h in res[ind][c]]) for ind in range(nind)])
+                     for c in range(ncols)])
